@@ -104,7 +104,7 @@ def oracle(hist, records):
             if k.get("parent") is not None:
                 gen_of[k["id"]] = k["parent"]
         for x in spec["tasks"]:
-            if not pa.after_idents(x) or x["id"] not in pos:
+            if not (pa.after_idents(x) or pa.after_tasks(x)) or x["id"] not in pos:
                 continue
             for k in pa.after_ids(spec, x):
                 if k not in pos:
@@ -119,7 +119,7 @@ def oracle(hist, records):
                 if ok and k in starts and x["id"] in starts:
                     ok = ends.get(k, 10**9) < starts[x["id"]]
                 if not ok:
-                    bad.append(("after", f"build {bi}: task {x['id']} is declared after={' or '.join(pa.after_idents(x))!r}, which matches task {k}"
+                    bad.append(("after", f"build {bi}: task {x['id']} is declared after={(' or '.join(pa.after_idents(x)) or [pa.tname(a) for a in pa.after_tasks(x)])!r}, which matches task {k}"
                                          f"{' (defined by generator %d before %d started)' % (g, x['id']) if g is not None else ''}, "
                                          f"but it started before {k} had finished; reports {order}", None))
         # (9) failures: dependants of a failed task do not run; nothing starts after the failure limit; exit code
@@ -283,7 +283,19 @@ def corpus():
                "perfile": {"2": 20000}, "inputs": {"100": 2, "102": 4}, "version": 0}
     gf1 = {"tag": "corpus-genfail", "nomodel": True, "spec": gf_spec, "steps": [["build"], ["build"]]}
     gf2 = {"tag": "corpus-genfail-limit", "nomodel": True, "kw": {"max_failures": 1}, "spec": gf_spec, "steps": [["build"], ["build"]]}
-    return [f11, f11b, f13, mix, pers, gf1, gf1, gf2, gf2]
+    # a task ordered only by after=<function> behind a task whose only product is a directory pattern (try_first: it would be picked first)
+    aft = {"tag": "corpus-after-pattern-producer",
+           "spec": {"pats": pats, "tasks": [_t(1, cnt=100, pprods=[f0]), _t(2, prods=[200], after_tasks=[1], after_style="func", try_first=True),
+                                            _t(3, prods=[201], after=[pa.tname(1)], try_first=True)],
+                    "perfile": {}, "inputs": {"100": 2}, "version": 0},
+           "steps": [["build"], ["write", 100, 3], ["build"]]}
+    # directory names with glob metacharacters, dot-files among the matches of *.txt
+    al = pa.pat_id(0, "all")
+    meta = {"tag": "corpus-metachar-dotfile",
+            "spec": {"pats": {str(al): {"dir": 0, "kind": "all"}}, "tasks": [_t(1, pdeps=[al], prods=[200]), _t(2, pdeps=[al], gen=True)],
+                     "perfile": {"2": 20000}, "inputs": {}, "version": 0, "dirnames": {"0": "d0[x]"}, "dataname": "da*ta[1]"},
+            "steps": [["write", 1000, 5], ["write", 1010, 6], ["build"], ["write", 1011, 7], ["build"], ["build"]]}
+    return [f11, f11b, f13, mix, pers, gf1, gf1, gf2, gf2, aft, aft, meta]
 
 
 def gen_genfail(rng):
